@@ -48,6 +48,7 @@ func runC07(p *Program, r *Report) {
 	c07ws(p, r, "C07.ws")
 	c07funnel(p, r, "C07.funnel")
 	c05pair(p, r, env, "C07.pair")
+	cPoolClients(p, r, "C07.clients")
 }
 
 func c07get(p *Program, r *Report, rule string) {
